@@ -122,11 +122,14 @@ CHECKS = {
                      "entry is the compiled translation of its own (pattern, ignorecase) key) is preserved by __match on every path "
                      "(hit, miss, miss with eviction) and __match returns the wildcard match for this resolver's own ignorecase "
                      "whatever the cache holds (all histories by invariant); __translate = the character-wise translation; "
-                     "is_wildcard; glob = __start with the wildcard matcher (root component rules, relax -> []) then __glob.",
+                     "is_wildcard; glob = __start with the wildcard matcher (root component rules, relax -> []) then __glob; and the recursive "
+                     "descent __glob/__find in relaxed mode: the result is the denotation GL of the statement ('..', '', '.', '**' as "
+                     "de-duplicated union over the pre-order of the subtree, wildcard/literal components over the matching children in "
+                     "order) and nothing is raised; exceptions occur in strict mode only.",
                 tech="contract-based deductive verification (representation invariant of the shared cache, z3 strings)",
-                note="Resolver.__glob/__find (the recursive descent itself: denotation of '**'/wildcards/'..', which errors are "
-                     "swallowed, pre-order and duplicate clauses, strict dead-end rule, agreement with get) are NOT under contract: "
-                     "they are covered by the BOUNDED stand-in run in both tiers (evidence.bounded_parts) and never counted as proved. "
+                note="Strict mode of __glob/__find (which errors are raised or swallowed: dead-end rule, agreement with get) and the "
+                     "pre-order / duplicate-freeness reading of GL are covered by the BOUNDED stand-in run in both tiers "
+                     "(evidence.bounded_parts), never counted as proved. "
                      "`re` semantics assumed (validated boundedly). Repaired by fix: ae02eb6 (strict glob blamed an existing literal "
                      "component)."),
     "C09": dict(cat="proof", design="3/C09",
